@@ -296,12 +296,13 @@ class ModCtx(object):
             return self.modname
         b = self.bindings[name]
         it = self.world.interp
-        if isinstance(b, ast.FunctionDef):
+        ov = self.world.override(self.modname + "." + name)
+        if ov is not _MISSING:
+            v = ov
+        elif isinstance(b, ast.FunctionDef):
             v = Closure(it, b, self)
         elif isinstance(b, ast.ClassDef):
-            v = self.world.override(self.modname + "." + name)
-            if v is _MISSING:
-                v = ClassRef(it, b, self)
+            v = ClassRef(it, b, self)
         elif b[0] == "import":
             v = self.world.resolve(b[1] if b[2] else b[1].split(".")[0])
         elif b[0] == "from":
@@ -485,7 +486,7 @@ class Interp(object):
 
     # ---------------------------------------------------------------- attribute protocol
     def getattr_(self, obj, attr, node=None):
-        if attr.startswith("__") and attr not in ("__name__", "__class__", "__dict__"):
+        if attr.startswith("__") and attr not in ("__name__", "__class__") and not (attr == "__init__" and isinstance(obj, (Instance, ClassRef, SuperProxy))):
             raise Unsupported("access to special attribute %s" % attr)
         if isinstance(obj, Instance):
             if attr in obj._attrs:
@@ -769,7 +770,10 @@ class Interp(object):
             if m is not None or m2 is not None:
                 raise Unsupported("truth value of an instance of %s (defines __bool__/__len__)" % v._cls.name)
             return True
-        return bool(v)
+        try:
+            return bool(v)
+        except ValueError as e:
+            raise ProgramError(e, getattr(node, "lineno", None))
 
     def e_UnaryOp(self, n, fr):
         v = self.ev(n.operand, fr)
@@ -828,10 +832,11 @@ class Interp(object):
 
     def e_Compare(self, n, fr):
         left = self.ev(n.left, fr)
-        for op, rn in zip(n.ops, n.comparators):
+        last = len(n.ops) - 1
+        for i, (op, rn) in enumerate(zip(n.ops, n.comparators)):
             right = self.ev(rn, fr)
             r = self.compare(op, left, right, n)
-            if not self.truth(r, n):
+            if i < last and not self.truth(r, n):
                 return r
             left = right
         return r
